@@ -158,7 +158,15 @@ def _tsv_clean(s):
 def id_lists(draw, n, kind="simple", prefix="o"):
     """`n` distinct non-empty IDs."""
     if kind == "simple":
-        style = draw(st.integers(0, 4))
+        style = draw(st.integers(0, 5))
+        if style == 5:
+            # words: no digit anywhere on the axis, not in any order
+            pool = ["gut", "skin", "feces", "tongue", "soil", "water", "Air",
+                    "palm", "nose", "ear", "Leaf", "root", "sea", "ice"]
+            ids = [prefix + "_" + w for w in draw(st.permutations(pool))[:n]]
+            ids += ["%s_%s" % (prefix, "x" * (i + 1))
+                    for i in range(n - len(ids))]
+            return ids
         if style == 4:
             # valid but awkward: format characters, quotes, blanks inside,
             # numeric-looking, zero-padded twins, prefixes of one another,
